@@ -96,6 +96,7 @@ type OpResult struct {
 	Outs                               []uint64 // tokens of the outputs (call / callredef / convert)
 	OutDyn                             []int
 	OutLen                             int
+	Loaded                             int // loadinput: values written into the Func's own input set
 	Redef                              *argmapper.Func
 	RedefIn                            []Label // declared inputs of the redefined function
 	LogFrom                            int
@@ -160,7 +161,7 @@ func structTypeOf(slots []Slot) reflect.Type {
 		var tagName string
 		var opts []string
 		if s.Name == "" {
-			f.Name = fmt.Sprintf("V%d", i)
+			f.Name = fmt.Sprintf("Zv%d", i)
 			opts = append(opts, "typeOnly")
 			if s.Spell%3 == 1 {
 				// a name part in front of typeOnly is legal and must be ignored
@@ -173,7 +174,7 @@ func structTypeOf(slots []Slot) reflect.Type {
 		} else {
 			field, tn := spellName(s.Name, s.Spell)
 			if field == "" {
-				field = fmt.Sprintf("F%d", i)
+				field = fmt.Sprintf("Zf%d", i)
 			}
 			f.Name = field
 			tagName = tn
@@ -1129,6 +1130,26 @@ func (rt *Runtime) RunOp(i int) *OpResult {
 					vals = append(vals, r.Out(k))
 				}
 				res.Outs, res.OutDyn = decodeOuts(vals)
+			}
+		case OpLoadInput:
+			in := rt.funcs[o.Target].Input()
+			for _, sl := range rt.Parties[o.Target].In {
+				var dst *argmapper.Value
+				if sl.Name != "" {
+					dst = in.Named(sl.Name)
+				} else {
+					dst = in.TypedSubtype(Types[sl.Type], sl.Sub)
+				}
+				if dst == nil {
+					continue
+				}
+				ty := sl.Type
+				if IsIface(ty) {
+					ty = Implementors(ty)[0]
+				}
+				id := rt.newToken(Token{Kind: TokSupplied, Label: sl.Label, Arg: -3, Op: i})
+				dst.Value = reflect.ValueOf(MakeValue(ty, id))
+				res.Loaded++
 			}
 		case OpConvert:
 			v, err := argmapper.Convert(Types[o.Type], args...)
